@@ -162,6 +162,10 @@ PP_FILES = {
 EXTRA_FILES = {
     "incs/inc_decl.f90": "      integer :: inc_var_a\n      real :: inc_var_b\n",
     "incs/incuser1.f90": "module iu1\n  implicit none\n  include 'inc_decl.f90'\ncontains\n  subroutine iu1_s()\n    inc_var_a = 1\n  end subroutine iu1_s\nend module iu1\n",
+    "incs/inc_type.f90": "      type :: inc_type_b\n        integer :: inc_comp_b\n      contains\n        procedure :: inc_bind_b => iu3_impl\n      end type inc_type_b\n",
+    "incs/incuser3.f90": "module iu3\n  implicit none\n  include 'inc_type.f90'\ncontains\n  subroutine iu3_impl(self)\n    class(inc_type_b) :: self\n    self%inc_comp_b = 3\n  end subroutine iu3_impl\nend module iu3\n",
+    "incs/incext.f90": "module incext\n  use iu3\n  implicit none\n  type, extends(inc_type_b) :: ext_b\n    integer :: own_c\n  end type ext_b\n  type(ext_b) :: ev\ncontains\n  subroutine ie_s()\n    ev%inc_comp_b = ev%own_c\n    call ev%inc_bind_b()\n    associate (ie_ax => ev%inc_comp_b, ie_ay => ev%own_c)\n      ie_ax = ie_ay\n    end associate\n  end subroutine ie_s\nend module incext\n",
+    "incs/aaa_incuse.f90": "module aaa_incuse\n  use incext\n  implicit none\ncontains\n  subroutine aiu_s()\n    type(ext_b) :: aiu_o\n    associate (aiu_x => aiu_o%inc_comp_b, aiu_y => ev%own_c)\n      aiu_x = aiu_y\n    end associate\n  end subroutine aiu_s\nend module aaa_incuse\n",
     "incs/incuser2.f90": "subroutine iu2()\n  implicit none\n  include 'inc_decl.f90'\n  inc_var_b = 2.0\nend subroutine iu2\n",
     "smods/smodp.f90": "module smodp\n  implicit none\n  interface\n    module subroutine sm_work(a)\n      integer, intent(inout) :: a\n    end subroutine sm_work\n    module function sm_fun(b) result(r)\n      integer, intent(in) :: b\n      integer :: r\n    end function sm_fun\n    module subroutine sm_short(c, d)\n      real, intent(in) :: c\n      real, intent(out) :: d\n    end subroutine sm_short\n  end interface\n  integer :: sm_state\nend module smodp\n",
     "smods/smodc.f90": "submodule (smodp) smodc\n  implicit none\n  integer :: sm_local\ncontains\n  module subroutine sm_work(a)\n    integer, intent(inout) :: a\n    a = a + sm_state + sm_local\n  end subroutine sm_work\n  module function sm_fun(b) result(r)\n    integer, intent(in) :: b\n    integer :: r\n    r = b + sm_state\n  end function sm_fun\n  module procedure sm_short\n    d = c * 2.0 + sm_state\n  end procedure sm_short\nend submodule smodc\n",
